@@ -100,6 +100,26 @@ Rx(st, ch) ==
                  THEN RxOk([st EXCEPT !.part = Del(st.part, c)], <<MsgOf(cur)>>, FALSE, cur)
                  ELSE RxOk([st EXCEPT !.part = Upd(st.part, c, got + ch.n)], <<>>, FALSE, cur)
 
+(* The library's ORIGINAL structure (before the repair of finding F10), kept as a negative   *)
+(* control for C16: ONE partial buffer shared by all chunk streams.  A chunk of another      *)
+(* csid arriving while a message is partially received is appended to that same buffer.     *)
+(* part is keyed by the constant 0 instead of the csid.                                      *)
+RxShared(st, ch) ==
+    LET c == ch.csid
+        known == c \in DOMAIN st.mem
+        inprog == 0 \in DOMAIN st.part
+    IN
+    IF ch.fmt # 0 /\ ~known THEN RxErr(st, "compressed header without predecessor on its chunk stream")
+    ELSE
+    LET prev == IF known THEN st.mem[c] ELSE <<>>
+        val  == IF ch.fmt = 3 THEN prev.delta ELSE IF ch.hasExt THEN ch.ext ELSE ch.field
+        h    == IF inprog /\ ch.fmt = 3 THEN prev ELSE NewHdr(ch, prev, val)
+        got  == IF inprog THEN st.part[0] ELSE 0
+    IN  IF got > h.len THEN RxErr(st, "shared buffer holds more bytes than the message announced (length underflow)")
+        ELSE IF got + ch.n >= h.len
+             THEN RxOk([st EXCEPT !.mem = Upd(st.mem, c, h), !.part = NoFn], <<MsgOf(h)>>, ~inprog, h)
+             ELSE RxOk([st EXCEPT !.mem = Upd(st.mem, c, h), !.part = Upd(NoFn, 0, got + ch.n)], <<>>, ~inprog, h)
+
 \* How many payload bytes will the chunk with this header carry?  (for the wire parser,
 \* which must know n before it can cut the payload out of the byte stream)
 WantN(st, ch) ==
